@@ -1,6 +1,7 @@
 import EpgVerif.Props.C10
 import EpgVerif.Tie.ApplySites
 import EpgVerif.Props.C10Second
+import EpgVerif.Props.C10Tuple
 open EpgVerif.Props.C10
 #print axioms flatten_spec
 #print axioms multi_attrs_sums
@@ -11,3 +12,12 @@ open EpgVerif.Props.C10
 #print axioms applyOrder2_hom
 #print axioms applyOrder2_hom'
 #print axioms combine_partials_second_order
+#print axioms EpgVerif.Props.C10Tuple.den_oadd
+#print axioms EpgVerif.Props.C10Tuple.den_omul
+#print axioms EpgVerif.Props.C10Tuple.oadd_keeps
+#print axioms EpgVerif.Props.C10Tuple.oadd_comm
+#print axioms EpgVerif.Props.C10Tuple.oadd_assoc
+#print axioms EpgVerif.Props.C10Tuple.add_den
+#print axioms EpgVerif.Props.C10Tuple.mul_den
+#print axioms EpgVerif.Props.C10Tuple.add_defined
+#print axioms EpgVerif.Props.C10Tuple.foldl_oadd_den
